@@ -71,8 +71,10 @@ Catchable(c) == c = "Exception" \/ "Exception" \in Ancestors(c)
 Raised(cls, msg) == [k |-> "raise", cls |-> cls, msg |-> msg]
 Returning(v)     == [k |-> "ret", v |-> v]
 
+\* (k = "text": what rendering a document template gave -- pieces of text; true unless empty)
 Truth(v) == IF v.k = "plain" THEN v.t
             ELSE IF v.k = "list" THEN Len(v.items) > 0
+            ELSE IF v.k = "text" THEN \E i \in 1..Len(v.ps) : v.ps[i] # ""
             ELSE TRUE
 TextOf(v) == IF v.k = "plain" THEN (IF v.t THEN <<v.id>> ELSE <<"0">>) ELSE <<"?" \o v.k>>
 
@@ -167,6 +169,7 @@ FindFrom(i, name) ==
 Find(name) == FindFrom(Len(ns), name)
 
 PlainText(v) == IF v.k = "plain" THEN (IF v.t THEN <<v.id>> ELSE IF "fid" \in DOMAIN v THEN <<v.fid>> ELSE <<"0">>)
+                ELSE IF v.k = "text" THEN v.ps
                 ELSE <<"?" \o v.k>>
 
 ---------------------------------------------------------------------------
@@ -341,6 +344,13 @@ CallEnter(t) ==
     /\ ctl' = ctl \o <<[k |-> "call", base |-> Len(ns), lvl |-> level, top |-> FALSE],
                        RbAt(t.prog, Len(ns) + Len(fs))>>
 
+\* the call was made for a named condition (a document template found under the condition's name): its text is the value
+CondCallDone(t) ==
+    /\ ns' = SubSeq(ns, 1, Top.base)
+    /\ evs' = evs \o PopEvs(Len(ns), Top.base)
+    /\ ctl' = SetTop(PopC(ctl), [Below EXCEPT !.st = "cond", !.hv = TRUE, !.cv = t])
+    /\ ret' = NoRet
+
 CallRet ==
     /\ ctl # <<>> /\ Top.k = "call" /\ ret.f /\ exc.k = "none"
     /\ level' = Top.lvl
@@ -348,7 +358,9 @@ CallRet ==
        THEN /\ result' = [k |-> "text", v |-> ret.v]
             /\ ns' = SubSeq(ns, 1, Top.base) /\ evs' = evs \o PopEvs(Len(ns), Top.base)
             /\ ctl' = <<>> /\ ret' = NoRet
-       ELSE Complete(ret.v) /\ UNCHANGED result
+       ELSE IF Below.k = "if"
+            THEN CondCallDone(ret.v) /\ UNCHANGED result
+            ELSE Complete(ret.v) /\ UNCHANGED result
     /\ UNCHANGED <<tid, plan, calls, ninv, exc>>
 
 CallExc ==
@@ -360,7 +372,9 @@ CallExc ==
             THEN /\ result' = [k |-> "value", v |-> exc.v]
                  /\ ns' = SubSeq(ns, 1, Top.base) /\ evs' = evs \o PopEvs(Len(ns), Top.base)
                  /\ ctl' = <<>> /\ exc' = NoExc /\ ret' = NoRet
-            ELSE Complete(PlainText(exc.v)) /\ exc' = NoExc /\ UNCHANGED result
+            ELSE IF Below.k = "if"
+                 THEN CondCallDone(PlainText(exc.v)) /\ exc' = NoExc /\ UNCHANGED result
+                 ELSE Complete(PlainText(exc.v)) /\ exc' = NoExc /\ UNCHANGED result
        ELSE IF Top.top
             THEN /\ result' = [k |-> "exc", cls |-> exc.cls, msg |-> exc.msg]
                  /\ ns' = SubSeq(ns, 1, Top.base) /\ evs' = evs \o PopEvs(Len(ns), Top.base)
@@ -442,7 +456,7 @@ RbIf ==
     /\ AtNode("if")
     /\ ns' = Append(ns, Frame("cache", EmptyFn))
     /\ evs' = Append(evs, PushEv("cache", Len(ns) + 1))
-    /\ ctl' = Append(ctl, [k |-> "if", node |-> Node, i |-> 1, st |-> "cond", base |-> Len(ns)])
+    /\ ctl' = Append(ctl, [k |-> "if", node |-> Node, i |-> 1, st |-> "cond", base |-> Len(ns), hv |-> FALSE, cv |-> <<>>])
     /\ UNCHANGED <<tid, plan, level, calls, ninv, exc, ret, result>>
 
 SetCache(n, v) ==
@@ -451,6 +465,7 @@ SetCache(n, v) ==
 
 IfCond ==
     /\ Running /\ Top.k = "if" /\ Top.st = "cond"
+    /\ ~(~Top.hv /\ Top.i <= Len(Top.node.cs) /\ Top.node.cs[Top.i].c.k = "name" /\ MdGet(Top.node.cs[Top.i].c.n).out.tag = "tmpl")
     /\ LET nd == Top.node IN
        IF Top.i > Len(nd.cs)
        THEN \* no condition held: the else body, if any
@@ -459,7 +474,7 @@ IfCond ==
                ELSE Complete(<<>>)
             /\ UNCHANGED <<calls, ninv, exc>>
        ELSE LET c == nd.cs[Top.i].c
-                q == EvalRef(c)
+                q == IF Top.hv THEN Quiet([tag |-> "val", v |-> [k |-> "text", id |-> "text", ps |-> Top.cv]]) ELSE EvalRef(c)
                 undefined == c.k = "name" /\ q.out.tag = "exc" /\ q.out.e.k = "raise"
                              /\ q.out.e.cls = "KeyError" /\ q.out.e.msg = c.n
                 isexc == q.out.tag = "exc" /\ ~undefined
@@ -490,8 +505,24 @@ IfCond ==
                                          /\ ctl' = SetTop(ctl, [Top EXCEPT !.st = "fin"])
                                     ELSE Complete(<<>>)
                           ELSE /\ ns' = ns1 /\ UNCHANGED <<evs, ret>>
-                               /\ ctl' = SetTop(ctl, [Top EXCEPT !.i = Top.i + 1])
+                               /\ ctl' = SetTop(ctl, [Top EXCEPT !.i = Top.i + 1, !.hv = FALSE])
     /\ UNCHANGED <<tid, plan, level, result>>
+
+\* a named condition bound to a document template: the template is rendered (on the current namespace, like everywhere) and
+\* what it gives is the condition's value
+IfCondTmpl ==
+    /\ Running /\ Top.k = "if" /\ Top.st = "cond" /\ ~Top.hv /\ Top.i <= Len(Top.node.cs)
+    /\ Top.node.cs[Top.i].c.k = "name" /\ MdGet(Top.node.cs[Top.i].c.n).out.tag = "tmpl"
+    /\ LET q == MdGet(Top.node.cs[Top.i].c.n)
+           t == q.out.v
+           fs == NonEmpty(<<Frame("map", t.gl)>>) IN
+       /\ calls' = q.calls /\ ninv' = q.ninv
+       /\ ns' = ns \o fs
+       /\ evs' = evs \o PushEvs(fs, 1, Len(ns))
+       /\ level' = level + 1
+       /\ ctl' = SetTop(ctl, [Top EXCEPT !.st = "condcall"])
+                  \o <<[k |-> "call", base |-> Len(ns), lvl |-> level, top |-> FALSE], RbAt(t.prog, Len(ns) + Len(fs))>>
+    /\ UNCHANGED <<tid, plan, exc, ret, result>>
 
 IfFin ==
     /\ Running /\ Top.k = "if" /\ Top.st = "fin"
@@ -763,7 +794,7 @@ RaiseExc ==
 
 Next ==
     \/ CallRet \/ CallExc \/ RbDone \/ RbUnwind \/ RbText \/ RbComment \/ RbVar \/ RbVarX \/ RbProbe \/ RbReturn
-    \/ RbIf \/ IfCond \/ IfFin \/ SimpleRet \/ SimpleExc \/ RbLet \/ LetBind \/ RbWith \/ RbIn \/ InItem \/ InRet
+    \/ RbIf \/ IfCond \/ IfCondTmpl \/ IfFin \/ SimpleRet \/ SimpleExc \/ RbLet \/ LetBind \/ RbWith \/ RbIn \/ InItem \/ InRet
     \/ RbTry \/ TryRet \/ TryExc \/ RbTryF \/ TryFRet \/ TryFExc \/ RbRaise \/ RaiseRet \/ RaiseExc
 
 Spec == Init /\ [][Next]_vars
